@@ -204,6 +204,79 @@ func checkC03Schema(prog *Program, o *CheckOpts) []ExtraResult {
 			})
 		}
 	}
+	// root attributes: what the hand-written MarshalXML of a container writes as attribute "a" from field F
+	// is read back only if F's struct tag is `xml:"a,attr..."` (the decoder works from the tags)
+	attrPairs := 0
+	for _, f := range root.Syntax {
+		for _, d := range f.Decls {
+			fd, ok := d.(*ast.FuncDecl)
+			if !ok || fd.Name.Name != "MarshalXML" || fd.Recv == nil || fd.Body == nil || len(fd.Recv.List) != 1 || len(fd.Recv.List[0].Names) != 1 {
+				continue
+			}
+			recvName := fd.Recv.List[0].Names[0].Name
+			rt := root.TypesInfo.TypeOf(fd.Recv.List[0].Type)
+			if p, ok := rt.(*types.Pointer); ok {
+				rt = p.Elem()
+			}
+			st, ok := rt.Underlying().(*types.Struct)
+			if !ok {
+				continue
+			}
+			tn := types.TypeString(rt, func(p *types.Package) string { return "" })
+			ast.Inspect(fd.Body, func(n ast.Node) bool {
+				cl, ok := n.(*ast.CompositeLit)
+				if !ok || types.ExprString(cl.Type) != "xml.Attr" {
+					return true
+				}
+				var attrName, field string
+				for _, el := range cl.Elts {
+					kv, ok := el.(*ast.KeyValueExpr)
+					if !ok {
+						continue
+					}
+					switch types.ExprString(kv.Key) {
+					case "Name":
+						if inner, ok := kv.Value.(*ast.CompositeLit); ok {
+							for _, e2 := range inner.Elts {
+								if kv2, ok := e2.(*ast.KeyValueExpr); ok && types.ExprString(kv2.Key) == "Local" {
+									if bl, ok := kv2.Value.(*ast.BasicLit); ok && bl.Kind == token.STRING {
+										attrName, _ = strconv.Unquote(bl.Value)
+									}
+								}
+							}
+						}
+					case "Value":
+						if sel, ok := kv.Value.(*ast.SelectorExpr); ok {
+							if id, ok := sel.X.(*ast.Ident); ok && id.Name == recvName {
+								field = sel.Sel.Name
+							}
+						}
+					}
+				}
+				if attrName == "" || field == "" {
+					return true
+				}
+				attrPairs++
+				tag, found := "", false
+				for i := 0; i < st.NumFields(); i++ {
+					if st.Field(i).Name() == field {
+						tag, found = reflect.StructTag(st.Tag(i)).Get("xml"), true
+					}
+				}
+				parts := strings.Split(tag, ",")
+				isAttr := false
+				for _, p := range parts[1:] {
+					if p == "attr" {
+						isAttr = true
+					}
+				}
+				add("root-attr."+tn+"."+attrName, fmt.Sprintf("%s.MarshalXML writes attribute %q from field %s, whose tag reads attribute %q back", tn, attrName, field, attrName),
+					found && parts[0] == attrName && isAttr, fmt.Sprintf("tag of %s.%s is `xml:%q`", tn, field, tag), posStr(root.Fset, cl.Pos()))
+				return true
+			})
+		}
+	}
+	add("root-attr.count", "the containers OSM and Change write five root attributes each from their own fields", attrPairs == 10, fmt.Sprintf("%d attribute/field pairs found", attrPairs), "")
 	checkSwitch(scan, "Scan", "Scanner", nil)
 	add("scan.cases", "the scanner handles the seven OSM XML elements", cases == 7, fmt.Sprintf("%d decoding cases", cases), "")
 	before := cases
